@@ -588,7 +588,9 @@ def call_lua_sandbox(
             else:
                 # Expand all templates, in case the Lua code actually
                 # inspects the output.
-                v = ctx._encode(v)
+                # <nowiki> and comments are handled before encoding, as
+                # expand() does for page text
+                v = ctx._encode(ctx.preprocess_text(v))
                 ctx.expand_stack.append("frame:preprocess()")
                 ret = expand_all_templates(v)
                 ctx.expand_stack.pop()
@@ -610,7 +612,15 @@ def call_lua_sandbox(
             title = dt["title"] or ""
             args2 = dt["args"] or {}
             new_args = [title]
-            for k, v in sorted(args2.items(), key=lambda x: str(x[0])):
+            items = dict(args2.items())
+            # Keys 1..n are positional arguments: pass them as such, so
+            # that their values are not whitespace-trimmed like named ones
+            # (a value containing "=" must keep its explicit number)
+            num = 1
+            while num in items and "=" not in str(items[num]):
+                new_args.append(str(items.pop(num)))
+                num += 1
+            for k, v in sorted(items.items(), key=lambda x: str(x[0])):
                 new_args.append("{}={}".format(k, v))
             encoded = ctx._save_value("T", new_args, False)
             ctx.expand_stack.append("frame:expandTemplate()")
